@@ -2,7 +2,7 @@
    Only statements closed by [exact]; the lemmas live in Proofs/Stores.v, the executable
    models (memory store, OCI layout store, abstract specification) in Model/Stores.v. *)
 From Oras Require Import Base.Prelude Generated.GC06 Model.Stores Model.StoresConc Model.StoresConcOci Model.StoresConcFile
-     Proofs.Stores Proofs.StoresConc Proofs.StoresConcOci Proofs.StoresConcOci2 Proofs.StoresConcFile Proofs.StoresFile Proofs.StoresConcFileGraph.
+     Proofs.Stores Proofs.StoresConc Proofs.StoresConcOci Proofs.StoresConcOci2 Proofs.StoresConcFile Proofs.StoresFile Proofs.StoresConcFileGraph Proofs.StoresConcReads.
 From Coq Require Import Permutation.
 
 (* For every history, the memory store (cas.Memory + resolver.Memory + graph.Memory)
@@ -169,6 +169,46 @@ Theorem C06_conc_fetch_matches_file :
   hash = d_dig d.
 Proof. exact conc_fetch_matches_file. Qed.
 Print Assumptions C06_conc_fetch_matches_file.
+
+(* ---- concurrency: reads at every reachable configuration ----
+   Not only at quiescence: after EVERY prefix of EVERY schedule the content map and the tag map
+   are those of the sequential execution of the commit log (whose projection to a goroutine
+   is a prefix of its program), so a Fetch / Exists / Resolve taken at that moment answers what
+   that sequential execution answers -- content-map reads are linearisable.  (OCI: Resolve by
+   name; a digest reference during a manifest Push may see the blob before its digest tag.) *)
+Theorem C06_reads_linearisable_memory : forall (progs : list (list op)) (sched : list nat),
+  let cf := mconf_run (mconf_init progs) sched in
+  let q := fst (run mem_step mem_init (map snd (c_log cf))) in
+  (forall i, exists rest, log_of i (c_log cf) ++ rest = nth i progs []) /\
+  forall d r, snd (mem_step (c_store cf) (Fetch d)) = snd (mem_step q (Fetch d)) /\
+              snd (mem_step (c_store cf) (Exists d)) = snd (mem_step q (Exists d)) /\
+              snd (mem_step (c_store cf) (Resolve r)) = snd (mem_step q (Resolve r)).
+Proof. exact reads_linearisable_memory. Qed.
+Print Assumptions C06_reads_linearisable_memory.
+
+Theorem C06_reads_linearisable_oci :
+  forall (U : N -> gkey) (B : N -> blob) (progs : list (list op)) (sched : list nat),
+  (forall g, k_dig (U g) = g) -> Forall (wf_op U B) (concat progs) ->
+  let cf := oconf_run (oconf_init progs) sched in
+  let q := fst (run oci_step oci_init (map snd (oc_log cf))) in
+  (forall i, exists rest, log_of i (oc_log cf) ++ rest = nth i progs []) /\
+  forall d n, snd (oci_step (oc_store cf) (Fetch d)) = snd (oci_step q (Fetch d)) /\
+              snd (oci_step (oc_store cf) (Exists d)) = snd (oci_step q (Exists d)) /\
+              snd (oci_step (oc_store cf) (Resolve (RName n))) = snd (oci_step q (Resolve (RName n))).
+Proof. exact reads_linearisable_oci. Qed.
+Print Assumptions C06_reads_linearisable_oci.
+
+Theorem C06_reads_linearisable_file :
+  forall (fx ig ov : bool) (progs : list (list op)) (sched : list nat),
+  Forall untitled (concat progs) ->
+  let cf := fconf_run fx ig ov (fconf_init progs) sched in
+  let q := fst (runf (file_step fx ig ov) file_init (map snd (fc_log cf))) in
+  (forall i, exists rest, log_of i (fc_log cf) ++ rest = nth i progs []) /\
+  forall d r, snd (file_step fx ig ov (fc_store cf) (Fetch d)) = snd (file_step fx ig ov q (Fetch d)) /\
+              snd (file_step fx ig ov (fc_store cf) (Exists d)) = snd (file_step fx ig ov q (Exists d)) /\
+              snd (file_step fx ig ov (fc_store cf) (Resolve r)) = snd (file_step fx ig ov q (Resolve r)).
+Proof. exact reads_linearisable_file. Qed.
+Print Assumptions C06_reads_linearisable_file.
 
 (* ---- concurrency: memory store ---- *)
 
